@@ -16,7 +16,7 @@ DTS = [1e-4, 1e-3, 7e-3, 0.01, 0.05, 0.1, 0.25, 0.3, 1 / 3]
 def gen_input(rng, spec, steps):
     """one extrinsic input onto a random node: unique decodable samples"""
     net = models.RefNet(spec)
-    (node, opn), inst = rng.choice(list(net.inst.items()))
+    (node, opn), inst = rng.choice([(k_, i_) for k_, i_ in net.inst.items() if models.LIB[i_['lib']]['in']])
     invar = models.LIB[inst['lib']]['in']
     amp = rng.choice([0.25, 1.0, -0.5])
     return {'target': f'{node}/{opn}/{invar}', 'node': node, 'op': opn, 'amp': amp, 'n': steps}
@@ -48,7 +48,7 @@ class C03(Check):
 
     def strata(self, tier):
         s = [('S-main', 6), ('S-heun', 3), ('S-adaptive', 3), ('S-fault', 1), ('S-nonmult', 1), ('S-onerow', 1),
-             ('S-torch', 1), ('S-jax', 1), ('S-complex', 1)]
+             ('S-torch', 1), ('S-jax', 2), ('S-complex', 1)]
         if tier == 'thorough':
             s.append(('S-fortran', 1))      # f2py build per run (~6-10 s): thorough tier only
         return s
@@ -65,7 +65,8 @@ class C03(Check):
 
     # ------------------------------------------------------------------------------------------------
     def generate(self, rng, stratum, tier):
-        spec = models.gen_net(rng, hier=rng.random() < 0.25)
+        # a third of the models carry multi-operator nodes (a readout operator behind the node's first operator)
+        spec = models.gen_net(rng, hier=rng.random() < 0.25, readouts=(0.4, 0.0) if rng.random() < 0.35 else None)
         if stratum == 'S-complex':
             spec = models.gen_net(rng, libs=('cz',), hier=rng.random() < 0.2)     # complex-valued states
         elif rng.random() < 0.25:
@@ -107,6 +108,10 @@ class C03(Check):
         if stratum == 'S-onerow':
             K = 1
         dts = m * dt
+        if rng.random() < (0.75 if stratum in ('S-jax', 'S-torch') else 0.5):
+            # the sampling step as a user types it (0.3, not 3*0.1 = 0.30000000000000004): dts/dt may then fall just
+            # below the integer ratio in floating point
+            dts = float(f'{m * dt:.12g}')
         T = K * dts
         if stratum == 'S-nonmult':
             T = T + rng.choice([0.5, 0.3, 1.2, 2.6]) * dt
